@@ -17,7 +17,8 @@ import abacusnbody.data.pipe_asdf as pa
 ID = 'C20'
 BOUNDS = {
     'quick': 'files 1..3 x fields 1..2 (request order both ways); per-file existence and per-(file,field) presence free booleans; '
-             'column shapes from {(0,), (3,), (2,3), (1,2,2)} with the leading length varying across files; item widths 1,2,4,8,16; tty on/off',
+             'column shapes from {(0,), (3,), (2,3), (1,2,2)} with the leading length varying across files; item widths 1,2,4,8,16; tty on/off'
+             '; also: file contributions around every integer constant >= 256 found in the current source of unpack_to_pipe / its module (none on the present tree)',
     'thorough': 'quick plus 3 fields and all leading-length patterns from {0,1,3}',
 }
 OUTSIDE = 'decompression inside asdf (C14); the command-line parser; array element values (payloads are compared as bytes of concrete arrays)'
